@@ -32,7 +32,8 @@ RULE = ('Hostile, unrestricted-conditioning inputs: |x| up to 1e150, common offs
         '(every node observed) to Mean, Variance, Skewness, Kurtosis, Moments4, M6, M10, WeightedMean, WeightedMeanWithError, '
         'Covariance; histograms with random counts. Invariants checked on every observation (no envelope on the value): every '
         'variance-like accessor is >= 0 or +inf, never negative, never NaN once the sample size suffices, so error() is real; '
-        'every mean within [min, max] of the contributing observations +- 8*n*u*max|x|; weighted mean likewise over the '
+        'every mean within [min, max] of the contributing observations +- 8*n*u*max|x| (no absolute slack: exact for the '
+        'smallest subnormals, which a dedicated family of merge histories over k*5e-324 with ordinary weights exercises); weighted mean likewise over the '
         'observations with w>0; effective_len in [1, n](1 +- n*2^-50); histogram bin variances in [0, N/4] +- 4u*N. '
         'distinct_nontrivial = distinct (type, program) cases with >= 2 distinct input values.')
 ASSUME = ['driver faithfully prints accessor bit patterns', 'min / max / n of the inputs are computed exactly']
@@ -142,7 +143,7 @@ def check_state(typ, kv, xs, ws, ys, res, c, variant, ctx, merged=False, operand
             res.violation(PROP, '%s.%s:nonfinite' % (typ, name), '%s.%s() = %s for finite data (n=%d) %s' % (
                 typ, name, common.show(kv[name]) if v is not PANIC else 'PANIC', n, ctx), c, variant)
             return False
-        tol = 8 * n * U * M + 4 * n * DENORM
+        tol = 8 * n * U * M
         fv = Fraction(v)
         if fv < Fraction(lo) - tol or fv > Fraction(hi) + tol:
             res.violation(PROP, '%s.%s:out-of-range%s' % (typ, name, ':merge:subnormal-products' if underflow_class else ''),
@@ -248,6 +249,40 @@ def shard(desc):
                 cases.append(c)
                 plan.append((c, typ, marks, xs, ws, ys, kind))
                 res.count('merge_histories')
+    # merges of the smallest subnormals (k * 5e-324) with ordinary weights: the rounding unit is the size of the data, so a
+    # merge formula that rounds twice leaves [min, max] by a whole unit; every node and leaf observed
+    for i in range(desc.get('ntiny', 0)):
+        typ = rng.choice(['Mean', 'Variance', 'Kurtosis', 'M6', 'WeightedMean', 'WeightedMeanWithError', 'WeightedMean',
+                          'WeightedMeanWithError', 'Covariance'])
+        sgn = rng.choice([1.0, 1.0, -1.0])
+        pool = rng.choice([[1], [3], [1, 2], [1, 3, 5], [2, 3, 7], [1, 2, 3, 5, 7]])
+        k = rng.randint(2, 4)
+        sizes = [rng.randint(1, 3) for _ in range(k)]
+        n = sum(sizes)
+        xs = [sgn * rng.choice(pool) * 5e-324 for _ in range(n)]
+        ws = ys = None
+        arity, flat = 1, xs
+        if typ in ('WeightedMean', 'WeightedMeanWithError'):
+            arity = 2
+            wpool = rng.choice([[1.0], [1.0, 2.0, 3.0], [1.0, 0.5], [0.25, 0.5, 3.0, 1e-6]])
+            ws = [rng.choice(wpool) for _ in xs]
+            flat = [v for x, w in zip(xs, ws) for v in (x, w)]
+        elif typ == 'Covariance':
+            arity = 2
+            ys = [sgn * rng.choice(pool) * 5e-324 for _ in xs]
+            flat = [v for x, y in zip(xs, ys) for v in (x, y)]
+        tree = gen.random_tree(rng, 0, k, rng.choice(['random', 'left', 'right', 'balanced']))
+        c = Case(nid(), typ, meta={'kind': 'tiny-subnormal', 'sizes': list(sizes), 'tree': gen.tree_signature(tree)})
+        tc = gen.TreeCompiler(c, gen.chunks_of(flat, sizes, arity), arity=arity, observe_leaves=True)
+        tc.build(tree)
+        offs = [0]
+        for s_ in sizes:
+            offs.append(offs[-1] + s_)
+        marks = [(opi, offs[a], offs[b]) for opi, (a, b), _ in tc.obs]
+        c.meta['parents'] = {str(k_): list(v_) for k_, v_ in tc.parents.items()}
+        cases.append(c)
+        plan.append((c, typ, marks, xs, ws, ys, 'tiny-subnormal'))
+        res.count('tiny_subnormal_merge_histories')
     # histograms
     hcases = []
     for i in range(desc.get('nhist', 0)):
@@ -461,7 +496,7 @@ def run(tier, seed):
             binary = build(variant)
             nsh = common.NPROC * mult
             descs = [{'name': '%s%d' % (variant[0], s), 'variant': variant, 'binary': binary,
-                      'nseq': max(1, int(nseq * frac) // nsh), 'nhist': max(1, int(nhist * frac) // nsh),
+                      'nseq': max(1, int(nseq * frac) // nsh), 'nhist': max(1, int(nhist * frac) // nsh), 'ntiny': 40 if tier == 'quick' else 200,
                       'seed': seed * 1000003 + s * 7919 + sum(map(ord, variant))} for s in range(nsh)]
             total.merge(common.run_shards(shard, descs))
             total.merge(witness(binary, variant))
@@ -475,7 +510,7 @@ def run(tier, seed):
             total.merge(common.run_shards(special_shard, descs))
     except common.Inconclusive as e:
         total.inconclusive.append(str(e))
-    need = {'tworuns_histories': 100, 'lopsided_histories': 20, 'doubling_histories': 20, 'sign_checks': 20000, 'range_checks': 20000, 'merge_histories': 1000, 'effective_len_checks': 500,
+    need = {'tiny_subnormal_merge_histories': 500, 'tworuns_histories': 100, 'lopsided_histories': 20, 'doubling_histories': 20, 'sign_checks': 20000, 'range_checks': 20000, 'merge_histories': 1000, 'effective_len_checks': 500,
             'weighted_range_checks': 500, 'histogram_variance_checks': 2000}
     for k in ('offset15', 'ulp', 'denormal', 'mixed', 'constperturb', 'big', 'standard'):
         need['kind_%s' % k] = 50
